@@ -9,12 +9,13 @@
    each other - in any interleaving each structure's operations give exactly the answers they
    give alone (C19_non_interference, generic); Update and Count of the Redis Count-Min sketch
    are local to the sketch's row keys, and sketches with different 16-letter base keys have
-   disjoint row keys (C19_cms_structures_do_not_interfere). For the other four structures the
-   locality of each call is decided by correspondence: 2-8 live structures of mixed kinds share
+   disjoint row keys (C19_cms_structures_do_not_interfere); HyperLogLog's and Bloom's calls are
+   local to their single data key. For the cuckoo filter and Top-K the locality of each call is
+   decided by correspondence: 2-8 live structures of mixed kinds share
    one miniredis, their histories are interleaved, each structure's answers are diffed against
    its model run alone on an empty store, and a monitor checks that a structure's answers change
-   only through operations on its own handles (partial for those four). *)
-From GX.Model Require Import Base Redis RedisCMS.
+   only through operations on its own handles (partial for those two). *)
+From GX.Model Require Import Base Redis RedisCMS RedisHLL RedisBloom.
 From GX.Proofs Require Import ListLemmas RedisProofs FrameProofs.
 
 Theorem C19_decimal_injective : forall a b, dec a = dec b -> a = b.
@@ -65,9 +66,24 @@ Theorem C19_cms_structures_do_not_interfere : forall key1 key2 prog s,
   run_mixed (outcome N) s prog = run_alone (outcome N) s prog.
 Proof. exact cms_structures_do_not_interfere. Qed.
 
+(* HyperLogLog and Bloom: every call reads and writes the one data key only, so structures with
+   different data keys do not interfere (C19_non_interference with K = {key}) *)
+Theorem C19_hll_update_local : forall hic h x, local (Kone (rh_key h)) (op_hll_update hic h x).
+Proof. exact hll_update_local. Qed.
+Theorem C19_hll_registers_local : forall h, local (Kone (rh_key h)) (op_hll_regs h).
+Proof. exact hll_regs_local. Qed.
+Theorem C19_bloom_insert_local : forall bpos h x, local (Kone (rb_key h)) (op_bloom_insert bpos h x).
+Proof. exact bloom_insert_local. Qed.
+Theorem C19_bloom_lookup_local : forall bpos h x, local (Kone (rb_key h)) (op_bloom_lookup bpos h x).
+Proof. exact bloom_lookup_local. Qed.
+Theorem C19_single_keys_disjoint : forall k1 k2, k1 <> k2 -> forall k, Kone k1 k -> Kone k2 k -> False.
+Proof. exact keys_disjoint_one. Qed.
+
 Print Assumptions C19_decimal_injective.
 Print Assumptions C19_row_key_injective.
 Print Assumptions C19_lset_frame.
 Print Assumptions C19_cms_init_frame.
 Print Assumptions C19_non_interference.
 Print Assumptions C19_cms_structures_do_not_interfere.
+Print Assumptions C19_hll_update_local.
+Print Assumptions C19_bloom_insert_local.
